@@ -301,3 +301,293 @@ pub fn loop_start(w: &WorldInner, tracer: usize) -> u64 {
         .find(|e| matches!(&e.ev, crate::world::Ev::NewSocket { kind: trippy_core::verif::VerifSocketKind::RecvV4 { .. } | trippy_core::verif::VerifSocketKind::RecvV6 { .. } }))
         .map_or(crate::clock::EPOCH_NS, |e| e.t)
 }
+
+// ------------------------------------------------------------------------------------------------
+// C11: every probe put on the wire is well-formed and as configured
+
+use crate::wire::{self, Ip4, Ip6, Udp, PROTO_ICMP, PROTO_ICMP6, PROTO_TCP, PROTO_UDP};
+use trippy_core::{MultipathStrategy, PortDirection, ProbeStatus, Protocol};
+
+fn probe_fields(p: &ProbeStatus) -> Option<(u16, u8, u16, u16, u16)> {
+    match p {
+        ProbeStatus::Awaited(x) => Some((x.sequence.0, x.ttl.0, x.src_port.0, x.dest_port.0, x.identifier.0)),
+        ProbeStatus::Complete(x) => Some((x.sequence.0, x.ttl.0, x.src_port.0, x.dest_port.0, x.identifier.0)),
+        ProbeStatus::Failed(x) => Some((x.sequence.0, x.ttl.0, x.src_port.0, x.dest_port.0, x.identifier.0)),
+        _ => None,
+    }
+}
+
+pub fn check_wire(w: &WorldInner, a: &Analysis, run: &RunResult, tcfg: &TraceCfg, o: &mut Outcome, site: &str, replay: &Value) {
+    let v6 = tcfg.target.is_ipv6();
+    let raw = tcfg.privilege == trippy_core::PrivilegeMode::Privileged;
+    let host: std::net::IpAddr = if v6 { w.cfg.host_v6.into() } else { w.cfg.host_v4.into() };
+    for (round, rt) in run.rounds.iter().zip(&a.rounds) {
+        let slots = crate::truth::dispatched_slots(round);
+        if slots.len() != rt.groups.len() {
+            continue;
+        }
+        for (&slot, g) in slots.iter().zip(&rt.groups) {
+            let Some(wid) = g.wire else { continue };
+            let Some((seq, ttl, _sp, _dp, ident)) = probe_fields(&round.probes[slot]) else { continue };
+            let wp = &w.wires[wid];
+            let mut bad: Vec<(&'static str, String)> = Vec::new();
+            o.hit("wire_packet_decodes");
+            // ---- network layer
+            let transport: Vec<u8>;
+            if v6 {
+                let ip = match Ip6::parse(&wp.bytes) {
+                    Ok(ip) => ip,
+                    Err(e) => {
+                        o.violate("wire_packet_decodes", site, format!("round {} slot {slot}: {e}", round.index), replay.clone());
+                        continue;
+                    }
+                };
+                if ip.hop_limit != ttl {
+                    bad.push(("hop_limit", format!("hop limit {} != probe ttl {ttl}", ip.hop_limit)));
+                }
+                if std::net::IpAddr::V6(ip.dst) != tcfg.target {
+                    bad.push(("destination", format!("dst {} != target {}", ip.dst, tcfg.target)));
+                }
+                if usize::from(ip.payload_len) != ip.payload.len() {
+                    bad.push(("length", format!("payload length {} != {}", ip.payload_len, ip.payload.len())));
+                }
+                transport = ip.payload;
+            } else {
+                // what trippy handed to the socket (raw) or what the kernel built from the options
+                let buf = if raw || tcfg.protocol == Protocol::Icmp { wp.sent_buf.as_ref().unwrap_or(&wp.bytes) } else { &wp.bytes };
+                let ip = match Ip4::parse(buf) {
+                    Ok(ip) => ip,
+                    Err(e) => {
+                        o.violate("wire_packet_decodes", site, format!("round {} slot {slot}: {e}", round.index), replay.clone());
+                        continue;
+                    }
+                };
+                if ip.ihl != 5 {
+                    bad.push(("ihl", format!("ihl {}", ip.ihl)));
+                }
+                if usize::from(ip.total_len) != buf.len() {
+                    bad.push(("length", format!("total length {} != {} octets handed to the socket", ip.total_len, buf.len())));
+                }
+                if ip.flags_frag != 0x4000 {
+                    bad.push(("dont_fragment", format!("flags/fragment {:#06x} (want DF only)", ip.flags_frag)));
+                }
+                if ip.ttl != ttl {
+                    bad.push(("ttl", format!("ttl {} != probe ttl {ttl}", ip.ttl)));
+                }
+                if ip.tos != tcfg.tos {
+                    bad.push(("tos", format!("tos {:#04x} != configured {:#04x}", ip.tos, tcfg.tos)));
+                }
+                if std::net::IpAddr::V4(ip.dst) != tcfg.target {
+                    bad.push(("destination", format!("dst {} != target {}", ip.dst, tcfg.target)));
+                }
+                if std::net::IpAddr::V4(ip.src) != host {
+                    bad.push(("source", format!("src {} != source address {host}", ip.src)));
+                }
+                let want_proto = match tcfg.protocol {
+                    Protocol::Icmp => PROTO_ICMP,
+                    Protocol::Udp => PROTO_UDP,
+                    Protocol::Tcp => PROTO_TCP,
+                };
+                if ip.proto != want_proto {
+                    bad.push(("protocol", format!("protocol {} != {want_proto}", ip.proto)));
+                }
+                transport = ip.payload;
+            }
+            let total = if v6 { 40 + transport.len() } else { 20 + transport.len() };
+            // ---- transport layer
+            match tcfg.protocol {
+                Protocol::Icmp => {
+                    o.hit("icmp_probe_fields");
+                    if transport.len() < 8 {
+                        bad.push(("icmp", "short icmp message".into()));
+                    } else {
+                        let want_type = if v6 { 128 } else { 8 };
+                        if transport[0] != want_type || transport[1] != 0 {
+                            bad.push(("icmp_type", format!("type {} code {}", transport[0], transport[1])));
+                        }
+                        let ok = if v6 { wire::transport_csum_ok(host, tcfg.target, PROTO_ICMP6, &transport) } else { wire::ones_sum(&[&transport]) == 0xffff };
+                        if !ok {
+                            bad.push(("icmp_checksum", "icmp checksum does not verify".into()));
+                        }
+                        let id = u16::from_be_bytes([transport[4], transport[5]]);
+                        let s = u16::from_be_bytes([transport[6], transport[7]]);
+                        if id != tcfg.trace_id || id != ident {
+                            bad.push(("icmp_identifier", format!("identifier {id} != trace id {}", tcfg.trace_id)));
+                        }
+                        if s != seq {
+                            bad.push(("sequence", format!("icmp sequence {s} != probe sequence {seq}")));
+                        }
+                        if total != usize::from(tcfg.packet_size) {
+                            bad.push(("packet_size", format!("datagram of {total} octets != packet size {}", tcfg.packet_size)));
+                        }
+                        if transport[8..].iter().any(|b| *b != tcfg.payload_pattern) {
+                            bad.push(("payload_pattern", "payload is not the configured pattern".into()));
+                        }
+                    }
+                }
+                Protocol::Udp => {
+                    o.hit("udp_probe_fields");
+                    match Udp::parse(&transport) {
+                        Err(e) => bad.push(("udp", e)),
+                        Ok(u) => {
+                            if usize::from(u.len) != transport.len() {
+                                bad.push(("length", format!("udp length {} != {}", u.len, transport.len())));
+                            }
+                            if !wire::transport_csum_ok(host, tcfg.target, PROTO_UDP, &transport) {
+                                bad.push(("udp_checksum", format!("udp checksum {:#06x} does not verify", u.csum)));
+                            }
+                            if let Some(s) = crate::forge::get_sequence(tcfg, if v6 { &wp.bytes } else { wp.sent_buf.as_ref().filter(|_| raw).unwrap_or(&wp.bytes) }) {
+                                if s != seq && !(tcfg.privilege != trippy_core::PrivilegeMode::Privileged && tcfg.strategy != MultipathStrategy::Classic) {
+                                    bad.push(("sequence", format!("sequence field carries {s}, probe sequence is {seq}")));
+                                }
+                            }
+                            match tcfg.ports {
+                                PortDirection::FixedSrc(p) if u.sport != p.0 => bad.push(("ports", format!("src port {} != fixed {}", u.sport, p.0))),
+                                PortDirection::FixedDest(p) if u.dport != p.0 => bad.push(("ports", format!("dest port {} != fixed {}", u.dport, p.0))),
+                                PortDirection::FixedBoth(s, d) if u.sport != s.0 || u.dport != d.0 => bad.push(("ports", format!("ports {}->{} != fixed {}->{}", u.sport, u.dport, s.0, d.0))),
+                                _ => {}
+                            }
+                            let sized = tcfg.strategy == MultipathStrategy::Classic || (tcfg.strategy == MultipathStrategy::Dublin && !v6);
+                            if sized {
+                                if total != usize::from(tcfg.packet_size) {
+                                    bad.push(("packet_size", format!("datagram of {total} octets != packet size {}", tcfg.packet_size)));
+                                }
+                                if u.payload.iter().any(|b| *b != tcfg.payload_pattern) {
+                                    bad.push(("payload_pattern", "payload is not the configured pattern".into()));
+                                }
+                            }
+                        }
+                    }
+                }
+                Protocol::Tcp => {
+                    o.hit("tcp_probe_fields");
+                    let ports = wire::tcp_ports(&transport);
+                    let (sp, dp) = ports.unwrap_or((0, 0));
+                    let s = match tcfg.ports {
+                        PortDirection::FixedSrc(_) => dp,
+                        _ => sp,
+                    };
+                    if s != seq {
+                        bad.push(("sequence", format!("port carries {s}, probe sequence is {seq}")));
+                    }
+                    match tcfg.ports {
+                        PortDirection::FixedSrc(p) if sp != p.0 => bad.push(("ports", format!("src port {sp} != fixed {}", p.0))),
+                        PortDirection::FixedDest(p) if dp != p.0 => bad.push(("ports", format!("dest port {dp} != fixed {}", p.0))),
+                        _ => {}
+                    }
+                    if g.connect.map(|a| a.ip()) != Some(tcfg.target) {
+                        bad.push(("destination", format!("connect address {:?}", g.connect)));
+                    }
+                    if g.bind.map(|a| a.ip()) != Some(host) {
+                        bad.push(("source", format!("bind address {:?}", g.bind)));
+                    }
+                }
+            }
+            if let Some((f, d)) = bad.first() {
+                o.violate("wire_fields", format!("{site}|{f}"), format!("round {} slot {slot} seq {seq}: {d}{}", round.index, if bad.len() > 1 { format!(" (+{} more: {:?})", bad.len() - 1, bad.iter().skip(1).map(|b| b.0).collect::<Vec<_>>()) } else { String::new() }), replay.clone());
+            }
+        }
+    }
+}
+
+// ------------------------------------------------------------------------------------------------
+// C19: NAT flag
+
+use trippy_core::NatStatus;
+
+pub fn check_nat(w: &WorldInner, a: &Analysis, run: &RunResult, tcfg: &TraceCfg, o: &mut Outcome, site: &str, replay: &Value) {
+    let applicable = tcfg.protocol == Protocol::Udp && tcfg.strategy == MultipathStrategy::Dublin && !tcfg.target.is_ipv6();
+    let views = round_views(w, a, tcfg);
+    for (round, v) in run.rounds.iter().zip(&views) {
+        let Some(snap) = &round.snapshot else { continue };
+        let hops = snap.hops();
+        // walk the responding probes of the round in probe (= ttl) order
+        let mut accs: Vec<&Accepted> = v.accepted.iter().collect();
+        accs.sort_by_key(|x| x.group_idx);
+        let mut prev: Option<u16> = None;
+        for acc in accs {
+            let Some(h) = hops.iter().find(|h| h.ttl() == acc.ttl) else { continue };
+            let wid = v.groups[acc.group_idx].wire.unwrap();
+            if !applicable {
+                // other configurations never leave NotApplicable
+                o.hit("not_applicable_elsewhere");
+                if h.last_nat_status() != NatStatus::NotApplicable {
+                    o.violate("not_applicable_elsewhere", site, format!("round {} ttl {}: {:?}", round.index, acc.ttl, h.last_nat_status()), replay.clone());
+                }
+                continue;
+            }
+            let Some(pid) = acc.read.pkt else { continue };
+            let (Some(quoted), Some(sent)) = (w.pkts[pid].quoted_udp_csum, w.wires[wid].udp_csum) else { continue };
+            let reference = prev.unwrap_or(sent);
+            let want = if quoted == reference { NatStatus::NotDetected } else { NatStatus::Detected };
+            // a hop probed twice in a round (re-issue) cannot occur for UDP; the snapshot is taken
+            // right after the round so `last_nat_status` is this round's status
+            o.hit("nat_detected_iff_checksum_changed");
+            if want == NatStatus::Detected {
+                o.hit("nat_detected_cases");
+            }
+            if h.last_nat_status() != want {
+                o.violate(
+                    "nat_detected_iff_checksum_changed",
+                    format!("{site}|want {want:?} got {:?}", h.last_nat_status()),
+                    format!("round {} ttl {}: status {:?}, expected {want:?} (quoted checksum {quoted:#06x}, reference {reference:#06x} = {})", round.index, acc.ttl, h.last_nat_status(), if prev.is_some() { "previous responder" } else { "probe as sent" }),
+                    replay.clone(),
+                );
+            }
+            prev = Some(quoted);
+        }
+    }
+}
+
+// ------------------------------------------------------------------------------------------------
+// C07: sequence numbers
+
+pub fn check_sequences(run: &RunResult, tcfg: &TraceCfg, o: &mut Outcome, site: &str, replay: &Value) {
+    let mut prev: Option<(u16, u16)> = None; // (first, last) issued in the previous round
+    for round in &run.rounds {
+        let seqs: Vec<(usize, u16)> = round.probes.iter().enumerate().filter_map(|(i, p)| probe_fields(p).map(|f| (i, f.0))).collect();
+        let slots = crate::truth::dispatched_slots(round).len();
+        o.hit("at_most_512_per_round");
+        if slots > 512 {
+            o.violate("at_most_512_per_round", site, format!("round {}: {slots} sequence numbers", round.index), replay.clone());
+        }
+        let Some(&(i0, s0)) = seqs.first() else { continue };
+        let first = s0.wrapping_sub(i0 as u16);
+        o.hit("consecutive_within_round");
+        for &(i, s) in &seqs {
+            if u32::from(first) + i as u32 != u32::from(s) {
+                o.violate("consecutive_within_round", site, format!("round {}: slot {i} has sequence {s}, round starts at {first}", round.index), replay.clone());
+                break;
+            }
+        }
+        let last = u32::from(first) + slots as u32 - 1;
+        o.hit("never_reaches_65535");
+        if last >= 65_535 {
+            o.violate("never_reaches_65535", site, format!("round {}: sequences {first}..={last}", round.index), replay.clone());
+        }
+        if let Some((pf, pl)) = prev {
+            o.hit("forward_or_restart_between_rounds");
+            let continues = u32::from(first) == u32::from(pl) + 1;
+            let restarts = first == tcfg.initial_sequence;
+            if !(continues || restarts) {
+                o.violate("forward_or_restart_between_rounds", site, format!("round {}: starts at {first}; previous round used {pf}..={pl}, initial sequence {}", round.index, tcfg.initial_sequence), replay.clone());
+            }
+            o.hit("disjoint_from_previous_round");
+            if restarts && !continues {
+                o.hit("restart_cases");
+            }
+            let overlap = u32::from(first) <= u32::from(pl) && last >= u32::from(pf);
+            if overlap {
+                o.violate("disjoint_from_previous_round", site, format!("round {}: sequences {first}..={last} overlap the previous round's {pf}..={pl}", round.index), replay.clone());
+            }
+        }
+        if tcfg.protocol == Protocol::Udp && tcfg.strategy == MultipathStrategy::Dublin && tcfg.target.is_ipv6() {
+            o.hit("dublin_ipv6_payload_fits");
+            let payload = last.saturating_sub(u32::from(tcfg.initial_sequence)) + 6;
+            if payload > 976 {
+                o.violate("dublin_ipv6_payload_fits", site, format!("round {}: payload of {payload} octets for sequence {last}", round.index), replay.clone());
+            }
+        }
+        prev = Some((first, last as u16));
+    }
+}
